@@ -43,6 +43,8 @@ class ScopeTasksDriver:
             w.do(t, "spawn", str(args[1]))
         elif name == "SetWill":
             w.do(t, "will", lambda: next((str(u) for u in range(1, self.n + 1) if w.status(str(u)) == "unborn"), None))
+        elif name == "SetTurn":
+            w.do(t, "turn")
         elif name in ("Leave", "End"):
             w.do(t, "leave", "return")
         elif name == "Fail":
@@ -106,6 +108,7 @@ def gen_trace(rnd, ntasks=5, nops=30, max_depth=3, max_scopes=8):
     waiting = set()
     nsid = 0
     will_set = False
+    turned = None
 
     def sync_stacks():
         # a task that was waiting for members and is back at its gate has left that scope
@@ -126,6 +129,16 @@ def gen_trace(rnd, ntasks=5, nops=30, max_depth=3, max_scopes=8):
             unborn = [t for t in st if st[t] == "unborn"]
             ch = []
             for t in gate:
+                if t == turned:
+                    # a task that answers cancellation with an error of its own: a leaf, never cancelled directly
+                    if unborn:
+                        ch += [("Spawn", [t, unborn[0]])]
+                    ch += [("End", [t]), ("Check", [t])]
+                    if rnd.random() < 0.1:
+                        ch += [("Fail", [t])]
+                    continue
+                if turned is None and t != 1 and not stack[t] and will_set != t and rnd.random() < 0.3:
+                    ch += [("SetTurn", [t])] * 2
                 if len(stack[t]) < max_depth and nsid < max_scopes:
                     ch += [("Open", [t, True])] * 2 + [("Open", [t, False])]
                 if unborn:
@@ -160,6 +173,8 @@ def gen_trace(rnd, ntasks=5, nops=30, max_depth=3, max_scopes=8):
                     stack[t].pop()
             elif name == "SetWill":
                 will_set = t
+            elif name == "SetTurn":
+                turned = t
             o = d.apply(name, tuple(args))
             if will_set and w.status(str(will_set)) not in ("gate", "busy"):
                 will_set = False if w.status(str(will_set)) in ("cancelled", "done", "failed") or True else will_set
@@ -170,7 +185,7 @@ def gen_trace(rnd, ntasks=5, nops=30, max_depth=3, max_scopes=8):
 
 
 TRACE_KW = dict(
-    variables=["pc", "stack", "tg", "grp", "origin", "owner", "residue", "extc", "will", "nsid", "nops", "obs"],
-    constants=dict(NTasks=5, MaxDepth=3, MaxScopes=8, MaxOps=100000, Bug='"none"'),
-    config_vars=[], actions=dict(Open=2, Spawn=2, Leave=1, End=1, Fail=1, Cancel=1, CtxCancel=1, Check=1, SetWill=1),
+    variables=["pc", "stack", "tg", "grp", "origin", "owner", "residue", "extc", "will", "turn", "nsid", "nops", "obs"],
+    constants=dict(NTasks=5, MaxDepth=3, MaxScopes=8, MaxOps=100000, Bug='"none"', Turn="TRUE"),
+    config_vars=[], actions=dict(Open=2, Spawn=2, Leave=1, End=1, Fail=1, Cancel=1, CtxCancel=1, Check=1, SetWill=1, SetTurn=1),
     invariants=["NoOrphans", "NoIdleWait", "NotSwallowed", "NoEscape"])
